@@ -241,14 +241,20 @@ def run_worker(binary, job, jobfile, timeout):
 
 
 def worker_output(p, n=4000):
+    """Tail of a worker's output, preceded by the line that says why the Go runtime gave up, if there is one."""
     try:
         with open(p.logpath, "rb") as f:
-            f.seek(0, 2)
-            size = f.tell()
-            f.seek(max(0, size - n))
-            return f.read().decode("utf-8", "replace")
+            data = f.read()
     except OSError:
         return ""
+    txt = data.decode("utf-8", "replace")
+    head = ""
+    for key in ("fatal error:", "panic:", "HARNESS-WATCHDOG", "runtime: "):
+        i = txt.find(key)
+        if i >= 0:
+            head = txt[i:i + 1500] + "\n...\n"
+            break
+    return head + txt[-n:]
 
 
 def load_known():
@@ -430,7 +436,7 @@ def explore(binary, prop, tier, seed, budget, workers, max_runs, scratch, spec, 
             p.kill()
             die("worker %d exceeded the wall-clock watchdog" % w)
         if not os.path.exists(out):
-            print(stdout[-4000:])
+            print(stdout[-6000:])
             die("worker %d wrote no summary (exit %s)" % (w, p.returncode))
         s = json.load(open(out))
         if s.get("harness_error"):
